@@ -30,7 +30,14 @@ Inductive method :=
 
 (* the VALUE of an injected failure, as far as Go code can tell values apart with
    errors.Is / errors.As / type switches: *)
-Inductive ecode := EServerError | EInvalidRequest | EInvalidClient | EAccessDenied.
+(* the ErrorType of an *oidc.Error: every exported constructor of pkg/oidc/error.go, a type the
+   library does not define (a storage can build &oidc.Error{ErrorType: "..."}), and the empty type *)
+Inductive ecode :=
+| EServerError | EInvalidRequest | EInvalidClient | EAccessDenied
+| EInvalidScope | EInvalidGrant | EUnauthorizedClient | EUnsupportedGrantType
+| EInteractionRequired | ELoginRequired | ERequestNotSupported
+| EAuthorizationPending | ESlowDown | EExpiredToken | EInvalidTarget
+| ECustom | EEmpty.
 Inductive ebase :=
 | BPlain                                   (* errors.New(...) *)
 | BDeadline                                (* context.DeadlineExceeded *)
@@ -42,7 +49,11 @@ Inductive ebase :=
    assertions or json.Marshal *)
 Record kind := K { k_base : ebase; k_wrapped : bool }.
 
-Definition all_codes := [EServerError; EInvalidRequest; EInvalidClient; EAccessDenied].
+Definition all_codes :=
+  [EServerError; EInvalidRequest; EInvalidClient; EAccessDenied;
+   EInvalidScope; EInvalidGrant; EUnauthorizedClient; EUnsupportedGrantType;
+   EInteractionRequired; ELoginRequired; ERequestNotSupported;
+   EAuthorizationPending; ESlowDown; EExpiredToken; EInvalidTarget; ECustom; EEmpty].
 Definition all_bases : list ebase :=
   [BPlain; BDeadline; BCanceled; BDupUserCode; BInvalidRefresh]
   ++ flat_map (fun c => [BOidc c false; BOidc c true]) all_codes.
